@@ -366,6 +366,49 @@ def r14_3(prog, rep):
     return sites
 
 
+# texts the JSON decoder or the literal parser reads as something other than themselves (one per leading-character class
+# and shape): a path that hands the text back without having asked the parsers must be closed to every one of them
+PARSEABLE_WITNESSES = [
+    "1", "10", "-10", "+1", "-2.5", ".5", "1e5", "-1e-3", "1_000", "0x1f", "1j", "-1j", " 1", "\n[1]", "\t{}", "1 ", "true", "false", "null", "None", "True",
+    "NaN", "Infinity", "-Infinity", "'a'", '"a"', "b'x'", "''", '""', "[1]", "[]", "{}", '{"a": 1}', "{1}", "()", "(1,)", "1,2", "-1,2", "...",
+    "[[1]]", "'a' 'b'", "1 + 2j", "-0", "00", "1.", "\"\\u00e9\"", "r'x'", "0b1", "0o7", "1if", " null ", "[1,]", "{'a': 1}", "(1)", "--1", "- 1",
+]  # fmt: skip
+
+
+def text_shortcuts(prog, rep, entry, parser, rule="R14.4"):
+    """Every path of strload (and of the function that parses for it) which returns its text *without a parser having declined it*
+    is taken by no parseable text: its guards are interpreted (terms.ceval: text operations only) on a catalogue of witnesses."""
+    n = 0
+    for fn in [entry] + ([parser] if parser is not entry else []):
+        val = ("param", fn.params[0])
+        dec = ("call", ("ref", f"{C.SERDES}.decode"), (val,), ())
+        for i, p in enumerate(P.paths_of(prog, fn)):
+            if p.exit[0] != "return" or p.exit[1] not in (val, dec):
+                continue
+            if P.abandoned(p):
+                continue  # a parser was asked and declined
+            textual = [(g, pol) for g, pol in p.guards() if T.contains(g, lambda x: x in (val, dec))]
+            if not textual:
+                rep.violated(rule, fn.qualname, fn.loc, "a path returns the text unparsed without asking a parser and without looking at the text", detail=f"shortcut-path{i}")
+                continue
+            n += 1
+            taken, unknown = [], None
+            for w in PARSEABLE_WITNESSES:
+                try:
+                    if all(bool(T.ceval(g, {val: w, dec: w})) == pol for g, pol in textual):
+                        taken.append(w)
+                except T.Undecidable as e:
+                    unknown = str(e)
+                    break
+            gs = "; ".join(("" if pol else "not ") + T.show(g)[:60] for g, pol in textual)
+            if unknown is not None:
+                rep.undecided(rule, fn.qualname, fn.loc, f"a path returns the text unparsed under a condition on the text that is outside the interpreted fragment ({unknown}): [{gs}]", detail=f"shortcut-path{i}")
+                continue
+            rep.check(not taken, rule, fn.qualname, fn.loc, f"the unparsed-text shortcut [{gs}] is closed to all {len(PARSEABLE_WITNESSES)} parseable witnesses", f"text that JSON / literal_eval reads is handed back unparsed under [{gs}]: {taken[:6]} come back as str (an Enum member with value -10 is not found from its text '-10')", detail=f"shortcut-path{i}")
+    if not n:
+        rep.held(rule, entry.qualname, entry.loc, "no path returns the text without a parser having declined it", detail="no-shortcut", nontrivial=False)
+
+
 def r14_4(prog, rep):
     entry, f, _ = parse_function(prog)
     val = ("param", f.params[0])
@@ -391,6 +434,7 @@ def r14_4(prog, rep):
         if r == dec and len(suppressed) == 2:
             final = True
             sup1, sup2 = suppressed[0], suppressed[1]
+    text_shortcuts(prog, rep, entry, f)
     rep.check(json_first, "R14.4", f.qualname, f.loc, "JSON is tried first on the input", "the JSON decoder is not the first attempt", detail="json-first")
     rep.check(lit_second, "R14.4", f.qualname, f.loc, "literal_eval is tried second, on the decoded text", "literal_eval is not the second attempt or does not receive decode(val)", detail="literal-second")
     rep.check(final, "R14.4", f.qualname, f.loc, "otherwise the decoded text is returned", "the fall-through does not return decode(val)", detail="fallback")
